@@ -464,7 +464,7 @@ def mode_update(req):
         with open(rel, "wb") as f:
             f.write(content)
         known[sha(content)] = tok
-    output = case["output"].replace("{S}", S) if case["output"] is not None else None
+    output = case["output"].replace("{S}", S).replace("{X}", X or "/nonexistent") if case["output"] is not None else None
     dst_real = None
     if case["inplace"] and output is None:
         dst_real = os.path.join(cwd, "in.skops")
